@@ -252,7 +252,7 @@ pub fn main(args: &Args) -> ! {
     let dl = deadline(if thorough { 1200 } else { 45 });
     let k: u32 = if thorough { 13 } else { 10 };
     let cs = cfgs(thorough);
-    rep.rule = format!("E3 on the real server endpoint with a byte ledger per remote address built from the harness's delivery and emission log: (a) honest client, every drop mask over the first K={k} datagrams of both directions (so the server also runs on its timers alone), 30 s of virtual time, for certificate size x initial MTU x Retry x GSO configurations; (b) client vanishing after every step; (c) single dup/delay/reorder of each early datagram; (d) spoofed Initials of sizes 1199/1200/1201/1452 (1-3 copies, alone, with 1/300/900 bytes of coalesced garbage, or with 1/2/5/20 well-formed undecryptable coalesced packets) from an address that never answers; (e) stateless reset: inciting datagrams of EVERY size 1..=1300 and pairs 0/19/20/21 ms apart; (f) Initials of every size 1..=1199. Invariant for each datagram emitted before the address is validated: bytes sent before it < 3 x bytes received. Non-trivial = execution whose trace differs from the baseline; distinct = distinct trace hashes.");
+    rep.rule = format!("E3 on the real server endpoint with a byte ledger per remote address built from the harness's delivery and emission log: (a) honest client, every drop mask over the first K={k} datagrams of both directions (so the server also runs on its timers alone), 30 s of virtual time, for certificate size x initial MTU x Retry x GSO configurations; (b) client vanishing after every step; (c) single dup/delay/reorder of each early datagram; (d) spoofed Initials of sizes 1199/1200/1201/1452 (1-3 copies, alone, with 1/300/900 bytes of coalesced garbage, or with 1/2/5/20 well-formed undecryptable coalesced packets) from an address that never answers; (e) stateless reset: inciting datagrams of EVERY size 1..=1300 and pairs 0/19/20/21 ms apart; (f) Initials of every size 1..=1199, with the client's own destination CID and with destination CIDs of 0/1/4/7/9/20 bytes, with and without a token. Invariant for each datagram emitted before the address is validated: bytes sent before it < 3 x bytes received. Non-trivial = execution whose trace differs from the baseline; distinct = distinct trace hashes.");
     let mut tasks = vec![];
     for c in &cs {
         for mask in 0..(1u64 << k) {
@@ -460,9 +460,23 @@ pub fn main(args: &Args) -> ! {
         }
     }
     // Initials of every size 1..=1199 at a server: no state, no reply
+    // ... for the client's own destination CID and for destination CIDs of every other length class
+    // (shorter than the 8 bytes a first Initial must carry, the server's own length, the maximum),
+    // without and with a token
+    let dcids: Vec<Vec<u8>> = vec![ini.dcid.clone(), vec![], vec![0x5c; 1], vec![0x5c; 4], vec![0x5c; 7], vec![0x5c; 9], vec![0x5c; 20]];
+    let mut short_initial_cases = 0u64;
+    for (di, dcid) in dcids.iter().enumerate() {
+      for token in [&b""[..], &b"some-token-bytes"[..]] {
+        if di == 0 && !token.is_empty() {
+            continue;
+        }
     for size in 1..=1199usize {
+        if di != 0 && size % 7 != 1 && size > 120 && size < 1190 {
+            continue;
+        }
+        short_initial_cases += 1;
         let mut p = std_pair_pre(base, &cfg, Wl::W0, ReadMode::default(), |w| w.blackhole_all_from_start());
-        let d = puppet::reforge_initial(&ini, size, 0);
+        let d = puppet::reforge_initial_with(&ini, size, 0, dcid, token);
         let d = if d.len() > size { d[..size].to_vec() } else { d };
         let now = p.w.now();
         let mut buf = Vec::new();
@@ -480,10 +494,12 @@ pub fn main(args: &Args) -> ! {
             if let Some(proto::DatagramEvent::NewConnection(inc)) = ev {
                 p.w.nodes[SERVER].ep.ignore(inc);
             }
-            rep.violation(Violation { signature: "short-initial-acted-on".into(), what: format!("an Initial in a {}-byte datagram produced {what} (open={oc}, buffered={ib})", d.len()), replay: json!({"check":"c07","kind":"short-initial","size":size}) });
+            rep.violation(Violation { signature: "short-initial-acted-on".into(), what: format!("an Initial (destination CID of {} bytes, token of {} bytes) in a {}-byte datagram produced {what} (open={oc}, buffered={ib})", dcid.len(), token.len(), d.len()), replay: json!({"check":"c07","kind":"short-initial","size":size,"dcid_len":dcid.len(),"token_len":token.len()}) });
         }
     }
-    rep.part("stateless", json!({"inciting_sizes": n_sr, "responses": sr_sent, "short_initial_sizes": 1199}));
+      }
+    }
+    rep.part("stateless", json!({"inciting_sizes": n_sr, "responses": sr_sent, "short_initial_sizes": 1199, "short_initial_cases": short_initial_cases, "destination_cid_lengths": dcids.iter().map(|d| d.len()).collect::<Vec<_>>()}));
     rep.sample(json!({"kind":"hs","cfg":cs[0].client.name,"mask":"0b110","meaning":"datagrams #1 and #2 (the server's first flight) are dropped; the server must retransmit on its timers without ever having sent 3x the bytes it received from the still unvalidated client address"}));
     rep.assumptions = vec![
         "address validated = first genuine Handshake packet delivered from it and routed to the connection, or Incoming::remote_address_validated() at accept (token), or a PATH_RESPONSE echoing a challenge sent there".into(),
